@@ -18,7 +18,7 @@ RULE = (
     "truncation- and suffix-faulted variants (warn mode), incl. failed responses of every response-code format, lists of "
     "structures, empty lists and buffers followed by warnings; expected rows: one per structure / primitive / warning, one "
     "per byte buffer with all its bytes standing where its last element was, bit rows for attribute words that are not list "
-    "elements, indentation = path depth, value column = text form; failed responses of 12 response codes of every format and words of every attribute type printed back to back in one process (shuffled, reversed); a third of the completed decodes are also printed from a list, a tuple and directly from the live decoder (lazy pipeline) and must give the same lines; distinct = distinct (type/code, fault, mode, row count) cases"
+    "elements, indentation = path depth (every fourth decode is rooted four levels down, so rows reach depth 13), value column = text form; failed responses of 12 response codes of every format and words of every attribute type printed back to back in one process (shuffled, reversed); a third of the completed decodes are also printed from a list, a tuple and directly from the live decoder (lazy pipeline) and must give the same lines; distinct = distinct (type/code, fault, mode, row count) cases"
 )
 ASSUMPTIONS = [
     "the row of a non-byte list parent may stand at its position or later; it is required when the list has no element rows",
@@ -211,9 +211,24 @@ def check_events_printer(t, case, mode, rec):
     rec.count("event_lines", len(got))
 
 
-def check(case, rec, modes=(True, False)):
+DEEP_ROOT = ".capture.file.exchange.message"
+
+
+def check(case, rec, modes=(True, False), deep=None):
     for strict in modes:
-        t = TR.run(case.t, case.d, strict=strict, cc=case.cc, enc=case.enc)
+        # every fourth decode is rooted four levels down: rows then reach depths no message has under the default root
+        kw = {}
+        if (rec.evaluations % 4 == 2) if deep is None else deep:
+            from tpmstream.common.path import Path
+
+            if "[deep root]" not in case.origin:
+                case.origin += " [deep root]"
+
+            kw = dict(marshal_kwargs=dict(root_path=Path.from_string(DEEP_ROOT)))
+            rec.count("deep_rooted_decodes")
+        t = TR.run(case.t, case.d, strict=strict, cc=case.cc, enc=case.enc, **kw)
+        if kw:
+            rec.count("rows_below_level_9", sum(1 for e in t.events if e.kind == "M" and len(e.path) > 10))
         if t.outcome[0] == "internal":
             rec.count("decoder_internal_error")
             continue
@@ -221,7 +236,7 @@ def check(case, rec, modes=(True, False)):
         rec.case((case.sig, mode, len(t.events)), nontrivial=bool(t.events))
         check_pretty(t, case, mode, rec)
         check_events_printer(t, case, mode, rec)
-        if t.outcome[0] == "ok" and rec.counters.get("pretty_rows", 0) % 3 == 0:
+        if t.outcome[0] == "ok" and not kw and rec.counters.get("pretty_rows", 0) % 3 == 0:
             check_feeds(t, case, strict, mode, rec)
 
 
@@ -300,7 +315,7 @@ def run_shard(shard, rec):
 
 def finish(m, tier):
     inc = []
-    for k in ("pretty_rows", "warning_rows", "bit_rows", "buffer_rows", "event_lines", "sequence_streams", "printer_feed_comparisons"):
+    for k in ("pretty_rows", "warning_rows", "bit_rows", "buffer_rows", "event_lines", "sequence_streams", "printer_feed_comparisons", "rows_below_level_9"):
         if not m["counters"].get(k):
             inc.append(f"no {k}")
     return dict(inconclusive=inc)
@@ -308,4 +323,4 @@ def finish(m, tier):
 
 def replay(r, rec):
     case = cases.Case.from_replay(r)
-    check(case, rec, modes=((r.get("mode") != "warn"),))
+    check(case, rec, modes=((r.get("mode") != "warn"),), deep="[deep root]" in (r.get("origin") or ""))
